@@ -183,6 +183,84 @@ func TestC03_Generated(t *testing.T) {
 	})
 }
 
+// TestC03_StructuralPlusCancelling: a template that combines, on purpose, the two classes of special entries that
+// random kind assignment rarely puts together: entries the Go layer pre-marks and substitutes (wrong-length
+// signatures, identity keys) or the C layer rejects while parsing (malformed, outside G1), and one group of
+// well-formed invalid signatures whose sum is valid (pair, triple, swapped pair).  Positions are a generated
+// permutation, so the cancelling group may sit anywhere relative to the substituted entries, in particular at the
+// end: any per-entry bookkeeping (offsets, random coefficients, seeds) that goes out of step when entries are
+// substituted or skipped shows as the cancelling group being accepted.
+func TestC03_StructuralPlusCancelling(t *testing.T) {
+	gen.Run(t, "C03", func(g *gen.G) {
+		msg := g.Bytes("msg", 0, 40)
+		h, _ := drawHasher(g, "hasher")
+		H := hashToG1(g, msg, h)
+		nStruct := g.Int("structural", 0, 4)
+		group := g.Int("group", 0, 2) // 0 pair, 1 triple, 2 swapped pair
+		gsize := []int{2, 3, 2}[group]
+		nValid := g.Int("valid", 0, 4)
+		n := nStruct + gsize + nValid
+		perm := g.Perm("positions", n)
+		if g.Chance("groupLast", 1, 3) { // the cancelling group at the highest indices, structural entries first
+			for i := range perm {
+				perm[i] = i
+			}
+		}
+		invalid := make([]bool, n)
+		b := c03Build(g, n, invalid, msg, h, H, "base") // all valid
+		pos := perm[:nStruct]
+		grp := append([]int{}, perm[nStruct:nStruct+gsize]...)
+		for _, i := range pos {
+			switch g.Int("structKind", 0, 5) {
+			case 0:
+				L := []int{0, 1, 47, 49, 96}[g.Pick("len", 5)]
+				sg := make([]byte, L)
+				copy(sg, b.exact[i])
+				b.sigs[i], b.kinds[i] = sg, "shortSig"
+			case 1:
+				b.pks[i] = identityKeys(g, blsKey{x: big.NewInt(3), pk: b.pks[i]})[g.Pick("idk", 4)]
+				b.exact[i], b.kinds[i] = nil, "identityKey"
+				if g.Bool("idkSig") {
+					b.sigs[i] = bls381.G1Compress(bls381.G1Infinity())
+				}
+			case 2:
+				b.sigs[i], b.kinds[i] = crypto.BLSInvalidSignature(), "malformed"
+			case 3:
+				t3, _ := bls381.G1SmallOrderPoint(3, g.Bytes("tseed", 1, 2))
+				b.sigs[i], b.kinds[i] = bls381.G1Compress(b.points[i].Add(t3)), "nonG1"
+			case 4:
+				b.sigs[i], b.kinds[i] = bls381.G1Compress(bls381.G1Infinity()), "identitySig"
+			default:
+				b.sigs[i], b.kinds[i] = nil, "nilSig"
+			}
+		}
+		switch group {
+		case 0:
+			d := bls381.G1Generator().Mul(big.NewInt(int64(g.Int("delta", 1, 1<<20))))
+			b.sigs[grp[0]] = bls381.G1Compress(b.points[grp[0]].Add(d))
+			b.sigs[grp[1]] = bls381.G1Compress(b.points[grp[1]].Add(d.Neg()))
+			b.kinds[grp[0]], b.kinds[grp[1]] = "cancelPair", "cancelPair"
+		case 1:
+			d1 := bls381.G1Generator().Mul(big.NewInt(int64(g.Int("delta1", 1, 1<<20))))
+			d2 := H.Mul(big.NewInt(int64(g.Int("delta2", 1, 1<<20))))
+			b.sigs[grp[0]] = bls381.G1Compress(b.points[grp[0]].Add(d1))
+			b.sigs[grp[1]] = bls381.G1Compress(b.points[grp[1]].Add(d2))
+			b.sigs[grp[2]] = bls381.G1Compress(b.points[grp[2]].Add(d1.Add(d2).Neg()))
+			b.kinds[grp[0]], b.kinds[grp[1]], b.kinds[grp[2]] = "cancelTriple", "cancelTriple", "cancelTriple"
+		default:
+			if !bytes.Equal(b.sigs[grp[0]], b.sigs[grp[1]]) {
+				b.sigs[grp[0]], b.sigs[grp[1]] = b.sigs[grp[1]], b.sigs[grp[0]]
+				b.kinds[grp[0]], b.kinds[grp[1]] = "swapped", "swapped"
+			}
+		}
+		c03Check(g, b, msg, h, true)
+		g.Class(fmt.Sprintf("template:%dstructural+%s", nStruct, []string{"pair", "triple", "swap"}[group]))
+		if nStruct > 0 {
+			g.NonTrivial()
+		}
+	})
+}
+
 // TestC03_Subsets: every subset of invalid positions for every n up to N (every
 // shape of the aggregation tree), each with generated kinds of invalidity.
 func TestC03_Subsets(t *testing.T) {
